@@ -268,15 +268,23 @@ CHECKS = {
 NOT_YET = 'not claimed in this revision'
 
 
-# what rounds 7-8 of the detection experiments added to a check (appended to its level text)
+# what rounds 7-10 of the detection experiments added to a check (appended to its level text)
 ADDENDA = {
+    'C01': ' Bulk family: populations of 99 .. 1000 (thorough 5000) instances of two linked classes through every route.',
+    'C06': ' The host model declares user data types over core types and over each other (attributes, parameters, return types); 128 programs '
+           'read them as first assignments, copies, arguments and operands; the second-model family prebuilds a program touching every type first.',
+    'C08': ' `select one` along chains reaching several instances is compared across spellings.',
+    'C13': ' At most three inputs whose parsing exceeds the budget are confirmed one at a time (the rest is counted).',
+    'C17': ' Also `&=` with one-shot iterators, and a large-set family (sizes 0, 1, 2, 255..258, 1000; thorough 5000, 70000) compared '
+           'with every ordered collection and four near misses after every step.',
+    'C18': ' Two rows of the input chunks use the named-column INSERT form.',
     'C02': ' Shapes added later: two single-valued references, compound key, one referential attribute formalising two associations '
            '(with unique_id and with integer identifiers, so that linked partners with the identifier 0 occur), 1:1 unconditional.',
     'C03': ' Every split of an input over several input() calls is also fed with a build after every call; directory trees whose files share one name.',
     'C04': ' The selection family also covers chains that return to instances already passed and whole selections (select many + cardinality); '
            'programs that differ only in blank space inside a string literal are run one after the other in one process.',
     'C05': ' Programs with elif clauses are also translated from texts laid out with a line per clause in equal, falling and rising columns, '
-           'with and without // comments ending the lines.',
+           'with and without // comments ending the lines; unary operators applied to the value of unary operators.',
     'C09': ' Ask / change / ask again: in every reachable state a menu of identifier-covering equality queries and one-hop navigations is asked, '
            'one change is made (every enabled operation; every write of a plain or identifying attribute) and both menus are asked again.',
     'C10': ' The referential-chain family also starts from loaded instances whose references are null (zero id / absent column).',
